@@ -79,38 +79,8 @@ theorem frag_total (m : UDPMessage) (L : Int) : NoPanic (fragUDP m L) := by
 theorem frag_outcome (m : UDPMessage) (L : Int) (fs : List UDPMessage) (h : fragUDP m L = .ok fs) :
     fs = [] ∨ (fs = [m] ∧ (size m : Int) ≤ L) ∨
     (IsFragSet m fs ∧ (∀ f ∈ fs, 1 ≤ f.data.length ∧ (size f : Int) ≤ L) ∧
-      fs.length = fragCountOf m (L - (headerSize m : Int)).toNat) := by
-  rw [fragUDP_spec] at h
-  simp only [ok.injEq] at h
-  split at h
-  · right; left; exact ⟨h.symm, by assumption⟩
-  · split at h
-    · left; exact h.symm
-    · split at h
-      · left; exact h.symm
-      · rename_i hfit hpos hcnt
-        right; right
-        have hm : 0 < (L - (headerSize m : Int)).toNat := by omega
-        have hc := chunks_count _ hm m.data
-        have hflat := chunks_flatten _ hm m.data
-        have hsz := chunks_size (L - (headerSize m : Int)).toNat m.data
-        have hcount : fragCountOf m (L - (headerSize m : Int)).toNat = (chunksOf (L - (headerSize m : Int)).toNat m.data).length := by
-          unfold fragCountOf; exact hc.symm
-        -- at least two fragments: the message did not fit whole
-        have h2 : 2 ≤ (chunksOf (L - (headerSize m : Int)).toNat m.data).length := by
-          rw [hc]
-          have : (L - (headerSize m : Int)).toNat < m.data.length := by unfold size at hfit; omega
-          apply (Nat.le_div_iff_mul_le hm).mpr
-          omega
-        rw [hcount] at h hcnt
-        subst h
-        refine ⟨mkFrags_isFragSet m _ h2 (by omega) hflat, ?_, by rw [mkFrags_length, hcount]⟩
-        intro f hf
-        obtain ⟨i, c, hc', rfl⟩ := mkFrags_mem _ _ _ _ _ hf
-        have := hsz c (List.mem_of_getElem? hc')
-        refine ⟨this.1, ?_⟩
-        show ((headerSize m + c.length : Nat) : Int) ≤ L
-        omega
+      fs.length = fragCountOf m (L - (headerSize m : Int)).toNat) :=
+  fragUDP_outcome m L fs h
 
 /-- every fragment fits the datagram limit -/
 theorem frag_fits (m : UDPMessage) (L : Int) (fs : List UDPMessage) (h : fragUDP m L = .ok fs) :
@@ -611,6 +581,138 @@ example :
 /-- the hypotheses of the round-trip theorems are satisfiable -/
 example : SenderShaped ⟨1, 0, 0, 1, [byte 97, byte 98], [byte 1, byte 2, byte 3, byte 4, byte 5]⟩ := by
   unfold SenderShaped; decide
+
+/-! ### sessions: several packets through ONE receiveLoop / ONE udpConn -/
+
+/-- a session never panics -/
+theorem session_total (logger stop : Bool) (bufLen : Nat) (ps : List Pkt) :
+    NoPanic (sessionSend logger stop bufLen ps) := sessionSend_noPanic logger stop bufLen ps
+
+/-- FRESH ID PER PACKET.  In a session the i-th result is what sending the i-th packet ON ITS OWN
+    gives — a function of that packet's message, of ITS OWN draw and of the answers to ITS OWN
+    calls, of nothing that happened to earlier packets — and every datagram handed over after its
+    whole attempt is a fragment carrying `pktIDOfDraw` of that draw (non-zero). -/
+theorem session_ids_fresh_per_packet (logger stop : Bool) (bufLen : Nat) (ps : List Pkt)
+    (hdraw : ∀ p ∈ ps, p.draw < 65535)
+    (rs : List (List Handed × Option SendErr)) (h : sessionSend logger stop bufLen ps = .ok rs) :
+    rs.length ≤ ps.length ∧
+    ∀ (i : Nat) (r : List Handed × Option SendErr), rs[i]? = some r → ∃ p : Pkt, ps[i]? = some p ∧
+      autoFrag logger bufLen p.m p.draw p.env = .ok r ∧
+      ∀ x ∈ r.1.drop 1, ∃ f : UDPMessage, x.bytes = serialize f ∧
+        f.packetID = pktIDOfDraw p.draw ∧ f.packetID ≠ 0 := by
+  obtain ⟨hl, hg⟩ := sessionSend_get logger stop bufLen ps rs h
+  refine ⟨hl, ?_⟩
+  intro i r hr
+  obtain ⟨p, hp, ha⟩ := hg i r hr
+  refine ⟨p, hp, ha, ?_⟩
+  intro x hx
+  have hd := hdraw p (List.mem_of_getElem? hp)
+  rcases autofrag_all_or_nothing_sized logger bufLen p.m p.draw hd p.env r.1 r.2 ha with h0 | ⟨rest, h1, h2⟩
+  · rw [h0] at hx; simp at hx
+  · rw [h1] at hx
+    simp only [List.drop_succ_cons, List.drop_zero] at hx
+    rcases h2 with h2 | ⟨L, fs, j, k, _, _, _, _, _, hmap, _, _, _, _, hpid⟩
+    · rw [h2] at hx; simp at hx
+    · have : x.bytes ∈ rest.map (·.bytes) := List.mem_map_of_mem hx
+      rw [hmap] at this
+      obtain ⟨f, hf, e⟩ := List.mem_map.mp this
+      have := hpid f (List.mem_of_mem_take hf)
+      exact ⟨f, e.symm, this.1, this.2⟩
+
+/-- NO MIXING ACROSS THE PACKETS OF A SESSION.  Sender-shaped messages, draws pairwise distinct
+    (what the per-packet draw gives except with probability ≈ k²/131070).  Take ANY sequence of
+    datagrams that left during the session — any packets, any subset, any order, any duplicates —
+    through ParseUDPMessage and one fresh Defragger: no panic, and every message handed on has the
+    session, address and payload of ONE packet of the session. -/
+theorem session_no_mixing (logger stop : Bool) (bufLen : Nat) (ps : List Pkt)
+    (hshape : ∀ p ∈ ps, SenderShaped p.m) (hdraw : ∀ p ∈ ps, p.draw < 65535)
+    (hdist : ps.Pairwise (fun p q => p.draw ≠ q.draw))
+    (rs : List (List Handed × Option SendErr)) (h : sessionSend logger stop bufLen ps = .ok rs)
+    (σ : List Bytes) (hσ : ∀ b ∈ σ, ∃ r ∈ rs, b ∈ delivered r.1) :
+    ∃ d' outs, feedAll {} (recvAll σ) = .ok (d', outs) ∧
+      ∀ out ∈ emitted outs, ∃ p ∈ ps,
+        out.sessionID = p.m.sessionID ∧ out.addr = p.m.addr ∧ out.data = p.m.data := by
+  -- the fragment sets of the session
+  let sets := ps.filterMap fragSetOf
+  have hsets : ∀ a ∈ sets, IsFragSet a.1 a.2 := by
+    intro a ha
+    obtain ⟨p, _, hp⟩ := List.mem_filterMap.mp ha
+    exact (fragSetOf_isFragSet p a hp).2
+  have hsd : ∀ a ∈ sets, ∀ b ∈ sets, a.1.packetID = b.1.packetID → a = b := by
+    intro a ha b hb e
+    obtain ⟨p, hp, hpa⟩ := List.mem_filterMap.mp ha
+    obtain ⟨q, hq, hqb⟩ := List.mem_filterMap.mp hb
+    rw [(fragSetOf_isFragSet p a hpa).1, (fragSetOf_isFragSet q b hqb).1] at e
+    have : p.draw = q.draw := pktIDOfDraw_inj _ _ (hdraw p hp) (hdraw q hq) e
+    have := pairwise_draw_eq ps hdist p q hp hq this
+    subst this
+    rw [hpa] at hqb; exact Option.some.inj hqb
+  -- what the receiver parses
+  have hrecv : ∀ x ∈ recvAll σ,
+      (∃ p ∈ ps, (x = p.m ∨ x = p.withID)) ∨ ∃ a ∈ sets, x ∈ a.2 := by
+    intro x hx
+    simp only [recvAll, List.mem_filterMap] at hx
+    obtain ⟨b, hb, hx⟩ := hx
+    obtain ⟨r, hr, hbr⟩ := hσ b hb
+    obtain ⟨p, hp, ha⟩ := sessionSend_mem logger stop bufLen ps rs h r hr
+    obtain ⟨_, _, _, a1, a2, d1⟩ := hshape p hp
+    rcases autoFrag_delivered_cases logger bufLen p r ha b hbr with e | e | ⟨a, hfa, f, hf, e⟩
+    · rw [e, serialize_parse p.m a1 a2 d1] at hx
+      exact Or.inl ⟨p, hp, Or.inl (Option.some.inj hx).symm⟩
+    · rw [e, serialize_parse p.withID a1 a2 d1] at hx
+      exact Or.inl ⟨p, hp, Or.inr (Option.some.inj hx).symm⟩
+    · have hS := (fragSetOf_isFragSet p a hfa)
+      have hadr := hS.2.addr f hf
+      rw [hS.1] at hadr
+      have hne : 1 ≤ f.data.length := by
+        -- fragments of a fragment set produced by the splitter are non-empty
+        unfold fragSetOf at hfa
+        split at hfa
+        · rename_i L _
+          split at hfa
+          · rename_i fs hfs
+            split at hfa
+            · rename_i h2
+              simp only [Option.some.injEq] at hfa; subst hfa
+              exact (frag_reassembles _ L fs hfs h2).2.2 f hf
+            · simp at hfa
+          · simp at hfa
+        · simp at hfa
+      rw [e, serialize_parse f (by rw [hadr]; exact a1) (by rw [hadr]; exact a2) hne] at hx
+      exact Or.inr ⟨a, List.mem_filterMap.mpr ⟨p, hp, hfa⟩, (Option.some.inj hx) ▸ hf⟩
+  have hcnt : ∀ x ∈ recvAll σ, x.fragCount.val ≤ 1 ∨ ∃ a ∈ sets, x ∈ a.2 := by
+    intro x hx
+    rcases hrecv x hx with ⟨p, hp, e⟩ | h'
+    · left
+      obtain ⟨_, _, hc, _⟩ := hshape p hp
+      rcases e with rfl | rfl
+      · rw [hc]; decide
+      · show p.m.fragCount.val ≤ 1
+        rw [hc]; decide
+    · exact Or.inr h'
+  obtain ⟨d', outs, hfeed, hout⟩ := defrag_no_mixing sets hsets hsd (recvAll σ) hcnt
+  refine ⟨d', outs, hfeed, ?_⟩
+  intro out ho
+  rcases hout out ho with ⟨hmem, hc1⟩ | ⟨a, ha, e⟩
+  · rcases hrecv out hmem with ⟨p, hp, e⟩ | ⟨a, ha, hin⟩
+    · rcases e with rfl | rfl
+      · exact ⟨p, hp, rfl, rfl, rfl⟩
+      · exact ⟨p, hp, rfl, rfl, rfl⟩
+    · have := (hsets a ha).cnt out hin
+      have := (hsets a ha).two
+      omega
+  · obtain ⟨p, hp, hpa⟩ := List.mem_filterMap.mp ha
+    rw [e, (fragSetOf_isFragSet p a hpa).1]
+    exact ⟨p, hp, rfl, rfl, rfl⟩
+
+/-- a two-packet session (both refused whole with limit 13, draws 8 and 8000 → ids 9 and 8001):
+    each packet's fragments carry its own id -/
+example :
+    let m : UDPMessage := ⟨1, 0, 0, 1, [byte 97, byte 98], [byte 1, byte 2, byte 3, byte 4, byte 5]⟩
+    let env : Nat → Env1 := fun i => if i = 0 then ⟨true, .tooLarge 13⟩ else {}
+    (sessionSend true true 4096 [⟨m, 8, env⟩, ⟨m, 8000, env⟩]).bind
+        (fun rs => .ok (rs.map (fun r => (recvAll (delivered r.1)).map (fun f => (f.packetID.val, f.fragID.val, f.fragCount.val))))) =
+      .ok [[(9, 0, 3), (9, 1, 3), (9, 2, 3)], [(8001, 0, 3), (8001, 1, 3), (8001, 2, 3)]] := by decide
 
 /-! ### defect D1: the pinned tree (fragment count narrowed to uint8 before the slice is made) -/
 
